@@ -16,10 +16,11 @@ func init() {
 		// the completeness rule of a structured error (clause 6); encoding/json is an oracle
 		{Pkg: "encoding/json", Func: "Unmarshal", Oracle: true, OutParams: []string{"v"}},
 		{Pkg: "encoding/json", Func: "Marshal", Oracle: true},
-		// NilIsEmpty: `tmp.Metadata == nil` is read as len == 0. The code tells a nil map from an empty one (an empty
-		// errorMetadata object makes the error complete): the theorems are restricted to "metadata nil or non-empty",
-		// where the two readings agree; the empty map stays with the harness (family stderr:metadata-empty-map).
-		{Pkg: ".../plugin/proto", Func: "(*RequestError).UnmarshalJSON", NilIsEmpty: true},
+		// the code tells a nil errorMetadata map from an empty one (an empty object makes the error complete):
+		// both Metadata fields are `option (list ..)` (None = nil)
+		{Pkg: pf, Type: "Error", NilableFields: []string{"Metadata"}},
+		{Pkg: ".../plugin/proto", Type: "RequestError", NilableFields: []string{"Metadata"}},
+		{Pkg: ".../plugin/proto", Func: "(*RequestError).UnmarshalJSON"},
 		// the error mapping after the process ended (clauses 1, 2, 6, 7); the process execution is an oracle
 		{Pkg: pf, Type: "Request", Opaque: true, Views: map[string]string{"Command()": "string"}},
 		{Pkg: ".../plugin", Func: "commander.Output", Oracle: true},
